@@ -98,13 +98,16 @@ fn run_wrap_case(i: u64, pattern: u32, k_below: i32, rng: &mut Rng, rep: &mut Re
     let slots: Vec<i32> = vec![1, 2, 3, 4, MAX - 3, MAX - 2, MAX - 1, MAX];
     let parked: Vec<(i32, Park)> = slots.iter().enumerate().filter(|(b, _)| pattern >> b & 1 == 1).map(|(_, id)| (*id, match rng.below(7) { 0 | 1 => Park::Single, 2 | 3 => Park::Stream(rng.usize(3)), 4 => Park::DoneStream, 5 => Park::TimedOutStream, _ => Park::PagedLater })).collect();
     let n_ops = (2 * k_below + 8) as usize;
-    let leave_pending: Vec<bool> = (0..n_ops).map(|_| rng.chance(1, 5)).collect();
+    // 0 = answered at once, 1 = left pending, 2 = an operation that times out at once followed, without
+    // yielding to the driver, by a new pending operation for which the timed-out ID is the next candidate
+    let leave_pending: Vec<u8> = (0..n_ops).map(|_| match rng.below(10) { 0 | 1 => 1, 2 => 2, _ => 0 }).collect();
     let rt = runtime(rng.next());
     let parked2 = parked.clone();
     let lp = leave_pending.clone();
     let log: Arc<Mutex<Vec<(u64, i64, String)>>> = Arc::new(Mutex::new(vec![]));
     let log2 = log.clone();
-    let (events, final_table) = rt.block_on(async move {
+    let log3 = log.clone();
+    let (events, final_table, probes, outstanding_at_end) = rt.block_on(async move {
         let c = connect();
         let ldap = c.ldap;
         let srv = tokio::spawn(wrap_server(c.server, log2));
@@ -112,6 +115,8 @@ fn run_wrap_case(i: u64, pattern: u32, k_below: i32, rng: &mut Rng, rep: &mut Re
         let mut keep: Vec<Box<dyn std::any::Any>> = vec![];
         let mut done_streams = vec![];
         let mut paged_streams = vec![];
+        let mut paged_toks: Vec<u64> = vec![];
+        let mut probes: Vec<(i32, i32, String)> = vec![];
         let mut tok = 1u64;
         let mut events: Vec<(String, u64, i32, Vec<i32>)> = vec![]; // (what, token, last_after, inuse_after)
         for (id, kind) in &parked2 {
@@ -156,6 +161,7 @@ fn run_wrap_case(i: u64, pattern: u32, k_below: i32, rng: &mut Rng, rep: &mut Re
                     let _ = st.next().await; // the entry of page 2
                     world::settle().await;
                     paged_streams.push(st);
+                    paged_toks.push(tok);
                 }
                 Park::DoneStream => {
                     let mut l = ldap.clone();
@@ -176,7 +182,27 @@ fn run_wrap_case(i: u64, pattern: u32, k_below: i32, rng: &mut Rng, rep: &mut Re
         events.push(("position".into(), 0, t.0, t.1));
         let mut main = ldap.clone();
         for p in lp.iter() {
-            if *p {
+            if *p == 2 {
+                let before = ldap.verif_id_table().0;
+                let mut la = ldap.clone();
+                la.with_timeout(std::time::Duration::ZERO);
+                let _ = invoke(&mut la, &Call::Delete { dn: format!("op={},b=silent", 1_000_000 + tok) }).await;
+                // the timed-out ID is the next candidate again; the new operation is started in the same
+                // poll, before the driver can have processed the scrub of the timed-out one
+                ldap.verif_set_last_id(before);
+                let mut lb = ldap.clone();
+                let dn = format!("op={},b=silent", tok);
+                let mut fut = Box::pin(async move { invoke(&mut lb, &Call::Delete { dn }).await });
+                std::future::poll_fn(|cx| {
+                    let _ = std::future::Future::poll(fut.as_mut(), cx);
+                    std::task::Poll::Ready(())
+                })
+                .await;
+                keep.push(Box::new(tokio::spawn(fut)));
+                world::settle().await;
+                let t = ldap.verif_id_table();
+                events.push(("issue-after-timeout".into(), tok, t.0, t.1));
+            } else if *p == 1 {
                 let mut l = ldap.clone();
                 let dn = format!("op={},b=silent", tok);
                 keep.push(Box::new(tokio::spawn(async move { invoke(&mut l, &Call::Delete { dn }).await })));
@@ -203,6 +229,35 @@ fn run_wrap_case(i: u64, pattern: u32, k_below: i32, rng: &mut Rng, rep: &mut Re
             let t = ldap.verif_id_table();
             events.push(("finish-done-streams".into(), 0, t.0, t.1));
         }
+        // probes: for every operation that is still outstanding, make its ID the next candidate and
+        // allocate once; the allocator must step over it
+        let outstanding_now: Vec<i64> = {
+            let lg = log3.lock().unwrap();
+            let answered_or_done: std::collections::HashSet<u64> = events.iter().filter(|e| e.0.starts_with("issue-answered") || e.0 == "park-done").map(|e| e.1).collect();
+            let mut ids: Vec<i64> = vec![];
+            let mut seen_tok: HashMap<u64, usize> = HashMap::new();
+            for (t, id, _) in lg.iter() {
+                let nth = seen_tok.entry(*t).or_insert(0);
+                *nth += 1;
+                let paged = paged_toks.contains(t);
+                // paged streams: both pages are over (page 1 ended, page 2 was finished above)
+                if answered_or_done.contains(t) || paged || *t >= 1_000_000 {
+                    continue;
+                }
+                ids.push(*id);
+            }
+            ids
+        };
+        for x in outstanding_now.iter() {
+            if *x < 1 || *x > MAX as i64 {
+                continue;
+            }
+            let x = *x as i32;
+            ldap.verif_set_last_id(if x == 1 { MAX } else { x - 1 });
+            let o = world::watchdog(invoke(&mut main, &Call::Delete { dn: format!("op={},b=now", 2_000_000 + x as u64 % 1_000_000) })).await.unwrap_or(Outcome::Hung);
+            world::settle().await;
+            probes.push((x, main.last_id(), o.class()));
+        }
         let final_table = ldap.verif_id_table();
         drop(keep);
         drop(main);
@@ -210,7 +265,7 @@ fn run_wrap_case(i: u64, pattern: u32, k_below: i32, rng: &mut Rng, rep: &mut Re
         srv.abort();
         let _ = srv.await;
         c.driver.abort();
-        (events, final_table)
+        (events, final_table, probes, outstanding_now)
     });
     let replay = json!({"lane":"wrap","case":i,"pattern":pattern,"k_below":k_below});
     let wire = log.lock().unwrap().clone();
@@ -220,8 +275,13 @@ fn run_wrap_case(i: u64, pattern: u32, k_below: i32, rng: &mut Rng, rep: &mut Re
     }
     // parked operations got tokens 1.. in order
     let parked_tok: HashMap<i32, u64> = parked.iter().enumerate().map(|(k, (id, _))| (*id, k as u64 + 1)).collect();
-    // replay the history against the model
-    let mut inuse: BTreeSet<i32> = BTreeSet::new();
+    // replay the history. Judged (this is what the property states): every wire ID lies in 1..=MAX, no
+    // request goes out under the ID of an operation that is still outstanding, operations near the wrap
+    // point complete, and (probes) the allocator steps over the ID of every outstanding operation.
+    // The reference allocator (last+1, wrap, skip) and the library's in-use table are compared as well,
+    // but only counted: another allocation order or other bookkeeping does not break the property.
+    let mut inuse: BTreeSet<i32> = BTreeSet::new(); // model of the library's table
+    let mut outstanding: BTreeSet<i64> = BTreeSet::new(); // wire IDs of operations still waiting
     let mut last = 0;
     let mut wrapped = false;
     for (what, tok, last_after, inuse_after) in &events {
@@ -232,9 +292,10 @@ fn run_wrap_case(i: u64, pattern: u32, k_below: i32, rng: &mut Rng, rep: &mut Re
         if what == "finish-done-streams" {
             // finishing a paged stream on its second page releases that page's ID (and only that)
             inuse.retain(|x| !(*x > PEN && *x < PEN + 1000));
+            outstanding.retain(|x| !(*x > PEN as i64 && *x < PEN as i64 + 1000));
             let model_inuse: Vec<i32> = inuse.iter().copied().collect();
             if inuse_after != &model_inuse {
-                rep.violation("C05:finishing-an-ended-stream-released-somebody-else's-id", format!("after finish() of streams that had ended before: table {:?} model {:?}", inuse_after, model_inuse), replay.clone());
+                rep.count("table_differs_from_model_after_finishing_ended_streams(not judged by itself)", 1);
             }
             continue;
         }
@@ -249,6 +310,13 @@ fn run_wrap_case(i: u64, pattern: u32, k_below: i32, rng: &mut Rng, rep: &mut Re
             inuse.remove(&id);
             last = PEN + *tok as i32;
         }
+        let mut timed_out_id: Option<i32> = None;
+        if what == "issue-after-timeout" {
+            // the timed-out operation took the next ID and still holds it when its successor allocates
+            let a = model_next(last, &inuse);
+            inuse.insert(a);
+            timed_out_id = Some(a);
+        }
         let want = model_next(last, &inuse);
         if want < last {
             wrapped = true;
@@ -260,15 +328,25 @@ fn run_wrap_case(i: u64, pattern: u32, k_below: i32, rng: &mut Rng, rep: &mut Re
                 if g < 1 || g > MAX as i64 {
                     rep.violation("C05:message-id-out-of-range", format!("{} token {}: wire id {}", what, tok, g), replay.clone());
                 }
-                if inuse.contains(&(g as i32)) {
-                    rep.violation("C05:id-of-an-outstanding-operation-reused", format!("{} token {} got wire id {} while in use {:?}", what, tok, g, inuse), replay.clone());
+                if outstanding.contains(&g) {
+                    rep.violation("C05:id-of-an-outstanding-operation-reused", format!("{} token {} went out with wire id {} while operations with IDs {:?} were outstanding", what, tok, g, outstanding), replay.clone());
                 } else if g != want as i64 {
-                    rep.violation("C05:allocation-differs-from-reference-allocator", format!("{} token {}: wire id {} but last={} in-use={:?} => expected {}", what, tok, g, last, inuse, want), replay.clone());
+                    rep.count("allocations_differing_from_the_reference_allocator(not judged)", 1);
+                }
+                match what.as_str() {
+                    "park" | "park-paged-2" | "issue-pending" | "issue-after-timeout" => {
+                        outstanding.insert(g);
+                    }
+                    _ => {}
                 }
             }
         }
         last = want;
         inuse.insert(want);
+        if let Some(a) = timed_out_id {
+            // by the quiescent point the driver has processed the scrub of the timed-out operation
+            inuse.remove(&a);
+        }
         if what == "park-done" || what == "park-paged-1" {
             // SearchResultDone arrived: the ID is free again
             inuse.remove(&want);
@@ -279,14 +357,31 @@ fn run_wrap_case(i: u64, pattern: u32, k_below: i32, rng: &mut Rng, rep: &mut Re
             }
             inuse.remove(&want);
         }
-        // the library's own table must agree with the model at this quiescent point
         let model_inuse: Vec<i32> = inuse.iter().copied().collect();
         if *last_after != last || inuse_after != &model_inuse {
-            rep.violation("C05:id-table-differs-from-model", format!("after {} token {}: table ({}, {:?}) model ({}, {:?})", what, tok, last_after, inuse_after, last, model_inuse), replay.clone());
+            rep.count("quiescent_points_where_the_table_differs_from_the_model(not judged)", 1);
         }
         if verbose {
-            println!("{} token {} wire {:?} want {} table ({}, {:?})", what, tok, got, want, last_after, inuse_after);
+            println!("{} token {} wire {:?} want {} table ({}, {:?}) outstanding {:?}", what, tok, got, want, last_after, inuse_after, outstanding);
         }
+    }
+    // probes
+    for (x, got, outcome) in &probes {
+        rep.count("probes(allocation with an outstanding ID as next candidate)", 1);
+        if *got == *x {
+            rep.violation("C05:allocator-hands-out-the-id-of-an-outstanding-operation", format!("with the counter just below {} (operation still outstanding; all outstanding: {:?}) the next operation went out with ID {}", x, outstanding_at_end, got), replay.clone());
+        } else if outstanding_at_end.contains(&(*got as i64)) {
+            rep.violation("C05:allocator-hands-out-the-id-of-an-outstanding-operation", format!("probe below {} got {} which belongs to another outstanding operation {:?}", x, got, outstanding_at_end), replay.clone());
+        }
+        if *got < 1 {
+            rep.violation("C05:message-id-out-of-range", format!("probe below {} got {}", x, got), replay.clone());
+        }
+        if outcome != "Ok" {
+            rep.violation("C05:operation-failed-near-wrap", format!("probe below {}: {}", x, outcome), replay.clone());
+        }
+    }
+    if verbose {
+        println!("probes {:?}", probes);
     }
     let _ = final_table;
     if wrapped {
